@@ -118,7 +118,7 @@ typedef struct {
 	struct ttx_page_link		initial_page;
 
 	/** BTT links to TOP pages. */
-	struct ttx_page_link		btt_link[2 * 5];
+	struct ttx_page_link		btt_link[3 * 5];
 
 	/** Network supports TOP navigation. */
 	vbi_bool			have_top;
